@@ -5,18 +5,75 @@
 (*   7 LZ4_RAW: LZ4 block (Lz4.tla)                                                         *)
 (*   5 LZ4 (deprecated): readers in the field accept a raw LZ4 block under this id as well  *)
 (*     as the Hadoop framing; the reference reader takes the raw block (weakest reading).   *)
-(*   2 GZIP, 6 ZSTD: not transcribed into TLA+ (inflate / zstd internals are out of reach   *)
-(*     of the specification); page bodies of those codecs are not judged by the TLA+ reader. *)
-EXTENDS Naturals, Sequences, PageCodecFull
+(*   2 GZIP, 6 ZSTD: the entropy-coded forms (deflate Huffman blocks, zstd compressed       *)
+(*     blocks) are not transcribed into TLA+; the STORED forms are: a gzip member made of   *)
+(*     deflate stored blocks (RFC 1951 3.2.4, RFC 1952) and a zstd frame made of raw        *)
+(*     blocks (RFC 8878 3.1.1), with or without Frame_Content_Size. They are what the        *)
+(*     reference WRITER emits for those codecs (valid streams any conforming decoder must    *)
+(*     accept) and what the reference reader can decode; anything else under those ids is    *)
+(*     reported as "codec-not-modelled" (carquet-written files: layout-only parse).          *)
+EXTENDS Naturals, Sequences, SequencesExt, PageCodecFull, Crc32
 CodecBad(why) == [ok |-> FALSE, why |-> why]
+LE4(n) == <<n % 256, (n \div 256) % 256, (n \div 65536) % 256, (n \div 16777216) % 256>>
+\* the body cut into pieces of at most k bytes (at least one piece, possibly empty)
+RECURSIVE Pieces(_, _)
+Pieces(b, k) == IF Len(b) <= k THEN <<b>> ELSE <<SubSeq(b, 1, k)>> \o Pieces(SubSeq(b, k + 1, Len(b)), k)
+\* ---- gzip member of stored deflate blocks
+GzipStored(body) ==
+    LET ps == Pieces(body, IF Len(body) % 3 = 0 THEN 7 ELSE 65535)        \* sometimes many small blocks
+        blk(i) == LET d == ps[i] n == Len(d)
+                  IN <<IF i = Len(ps) THEN 1 ELSE 0, n % 256, n \div 256, 255 - (n % 256), 255 - (n \div 256)>> \o d
+    IN <<31, 139, 8, 0, 0, 0, 0, 0, 0, 255>> \o FoldLeft(LAMBDA acc, i : acc \o blk(i), <<>>, [i \in 1..Len(ps) |-> i])
+       \o AsLE(Crc32(body)) \o LE4(Len(body))
+\* ---- zstd frame of raw blocks; even lengths: no Frame_Content_Size (window descriptor instead), odd: 4-byte size
+ZstdRaw(body) ==
+    LET n == Len(body)
+        ps == Pieces(body, IF n % 3 = 0 THEN 5 ELSE 100000)
+        hdr(i) == LET v == Len(ps[i]) * 8 + (IF i = Len(ps) THEN 1 ELSE 0) IN <<v % 256, (v \div 256) % 256, v \div 65536>>
+        blocks == FoldLeft(LAMBDA acc, i : acc \o hdr(i) \o ps[i], <<>>, [i \in 1..Len(ps) |-> i])
+    IN <<40, 181, 47, 253>> \o (IF n % 2 = 0 THEN <<0, 80>> ELSE <<160>> \o LE4(n)) \o blocks
+\* ---- decoders of exactly these stored forms
+GzipStoredDecode(s) ==
+    IF Len(s) < 18 \/ SubSeq(s, 1, 4) # <<31, 139, 8, 0>> THEN CodecBad("codec-not-modelled")
+    ELSE LET RECURSIVE go(_, _)
+             go(p, acc) == IF p + 4 > Len(s) \/ s[p] \notin {0, 1} THEN CodecBad("codec-not-modelled")
+                           ELSE LET n == s[p + 1] + 256 * s[p + 2]
+                                IN IF s[p + 3] # 255 - s[p + 1] \/ s[p + 4] # 255 - s[p + 2] \/ p + 4 + n > Len(s) THEN CodecBad("gzip-stored-block-invalid")
+                                   ELSE IF s[p] = 1 THEN [ok |-> TRUE, v |-> acc \o SubSeq(s, p + 5, p + 4 + n), p |-> p + 5 + n]
+                                   ELSE go(p + 5 + n, acc \o SubSeq(s, p + 5, p + 4 + n))
+             r == go(11, <<>>)
+         IN IF ~r.ok THEN r
+            ELSE IF r.p + 7 # Len(s) THEN CodecBad("gzip-trailer-missing")
+            ELSE IF SubSeq(s, r.p, r.p + 3) # AsLE(Crc32(r.v)) \/ SubSeq(s, r.p + 4, r.p + 7) # LE4(Len(r.v)) THEN CodecBad("gzip-trailer-wrong")
+            ELSE [ok |-> TRUE, v |-> r.v]
+ZstdRawDecode(s) ==
+    IF Len(s) < 6 \/ SubSeq(s, 1, 4) # <<40, 181, 47, 253>> \/ s[5] \notin {0, 160} THEN CodecBad("codec-not-modelled")
+    ELSE LET start == IF s[5] = 0 THEN 7 ELSE 10
+             RECURSIVE go(_, _)
+             go(p, acc) == IF p + 2 > Len(s) THEN CodecBad("zstd-block-header-short")
+                           ELSE LET v == s[p] + 256 * s[p + 1] + 65536 * s[p + 2]
+                                    n == v \div 8
+                                IN IF (v \div 2) % 4 # 0 THEN CodecBad("codec-not-modelled")
+                                   ELSE IF p + 2 + n > Len(s) THEN CodecBad("zstd-raw-block-short")
+                                   ELSE IF v % 2 = 1 THEN [ok |-> TRUE, v |-> acc \o SubSeq(s, p + 3, p + 2 + n), p |-> p + 3 + n]
+                                   ELSE go(p + 3 + n, acc \o SubSeq(s, p + 3, p + 2 + n))
+             r == go(start, <<>>)
+         IN IF ~r.ok THEN r
+            ELSE IF r.p # Len(s) + 1 THEN CodecBad("zstd-trailing-bytes")
+            ELSE IF s[5] = 160 /\ SubSeq(s, 6, 9) # LE4(Len(r.v)) THEN CodecBad("zstd-content-size-wrong")
+            ELSE [ok |-> TRUE, v |-> r.v]
 Decompress(codec, body, ulen) ==
     IF codec = 0 THEN [ok |-> TRUE, v |-> body]
     ELSE IF codec = 1 THEN (LET r == SnappyDecompress(body) IN IF r.ok THEN [ok |-> TRUE, v |-> r.v] ELSE CodecBad("snappy-body-invalid"))
     ELSE IF codec \in {5, 7} THEN (LET r == Lz4Decompress(body, ulen) IN IF r.ok THEN [ok |-> TRUE, v |-> r.v] ELSE CodecBad("lz4-body-invalid"))
+    ELSE IF codec = 2 THEN GzipStoredDecode(body)
+    ELSE IF codec = 6 THEN ZstdRawDecode(body)
     ELSE CodecBad("codec-not-modelled")
 \* reference compressors (with copies) for the reference writer
 CompressRef(codec, body) ==
     IF codec = 1 THEN SnappyCompress(body)
     ELSE IF codec \in {5, 7} THEN Lz4Compress(body)
+    ELSE IF codec = 2 THEN GzipStored(body)
+    ELSE IF codec = 6 THEN ZstdRaw(body)
     ELSE body
 =============================================================================
